@@ -165,6 +165,94 @@ func run(in input) emit.Case {
 	return emit.Case{Coq: coq, JSON: m, Nontrivial: m.Crashed || in.K == 0, Kind: kind, Sig: sig}
 }
 
+// ---- historical saves (C19): SaveHistorical(h) interrupted before its k-th durable write ----------------------------
+
+type hinput struct {
+	W uint64 `json:"w"`
+	J uint64 `json:"j"` // last accepted height reached by "state sync": blocks 0 and J are accepted, nothing between
+	H uint64 `json:"h"` // the historical block being saved (0 < h < J)
+	K int    `json:"k"`
+	Hist bool `json:"hist"`
+}
+
+type hmirror struct {
+	hinput
+	Crashed  bool   `json:"crashed"`
+	ReopenOK bool   `json:"reopen_ok"`
+	ByHeight bool   `json:"by_height"`
+	IDAt     bool   `json:"id_at_height"`
+	HeightOf bool   `json:"height_of_id"`
+	ByID     bool   `json:"by_id"`
+	Agree    bool   `json:"agree"`
+	Note     string `json:"note,omitempty"`
+}
+
+func runHist(in hinput) emit.Case {
+	ctx := context.Background()
+	m := hmirror{hinput: in}
+	base := memdb.New()
+	cdb := &crashDB{Database: base}
+	open := func(db database.Database) (*chainindex.ChainIndex[*tblock], error) {
+		return chainindex.New[*tblock](ctx, logging.NoLog{}, prometheus.NewRegistry(),
+			chainindex.Config{AcceptedBlockWindow: in.W, BlockCompactionFrequency: 1 << 30}, parser{}, db)
+	}
+	ci, err := open(cdb)
+	if err != nil {
+		panic(err)
+	}
+	for _, h := range []uint64{0, in.J} {
+		if err := ci.UpdateLastAccepted(ctx, blk(h)); err != nil {
+			panic(err)
+		}
+	}
+	cdb.n, cdb.at = 0, in.K
+	func() {
+		defer func() {
+			if r := recover(); r != nil {
+				if _, ok := r.(crashSignal); !ok {
+					panic(r)
+				}
+				m.Crashed = true
+			}
+		}()
+		if err := ci.SaveHistorical(blk(in.H)); err != nil {
+			m.Note = "SaveHistorical: " + err.Error()
+		}
+	}()
+	ci2, err := open(base)
+	m.ReopenOK = err == nil
+	if err == nil {
+		b, e1 := ci2.GetBlockByHeight(ctx, in.H)
+		id, e2 := ci2.GetBlockIDAtHeight(ctx, in.H)
+		h2, e3 := ci2.GetBlockIDHeight(ctx, blk(in.H).GetID())
+		b2, e4 := ci2.GetBlock(ctx, blk(in.H).GetID())
+		m.ByHeight, m.IDAt, m.HeightOf, m.ByID = e1 == nil, e2 == nil, e3 == nil, e4 == nil
+		m.Agree = true
+		if e1 == nil && (b == nil || b.H != in.H) {
+			m.Agree = false
+		}
+		if e2 == nil && id != blk(in.H).GetID() {
+			m.Agree = false
+		}
+		if e3 == nil && h2 != in.H {
+			m.Agree = false
+		}
+		if e4 == nil && (b2 == nil || b2.H != in.H) {
+			m.Agree = false
+		}
+	} else {
+		m.Note = "reopen: " + err.Error()
+	}
+	coq := emit.App("mkH", emit.N(in.W), emit.N(in.J), emit.N(in.H), emit.N(uint64(in.K)), emit.Bool(m.Crashed), emit.Bool(m.ReopenOK),
+		emit.Bool(m.ByHeight), emit.Bool(m.IDAt), emit.Bool(m.HeightOf), emit.Bool(m.ByID), emit.Bool(m.Agree))
+	kind := "historical-save/crash-before-write"
+	if !m.Crashed {
+		kind = "historical-save/no-crash-point-reached"
+	}
+	return emit.Case{Coq: coq, JSON: m, Nontrivial: m.Crashed || in.K == 0, Kind: kind,
+		Sig: "historical-save-not-atomic:height-and-id-mappings-disagree-after-crash"}
+}
+
 func TestDriver(t *testing.T) {
 	env := emit.GetEnv()
 	if env.Out == "" {
@@ -181,11 +269,33 @@ func TestDriver(t *testing.T) {
 			t.Fatal(err)
 		}
 		for _, raw := range raws {
+			var hin hinput
+			if err := json.Unmarshal(raw, &hin); err == nil && hin.Hist {
+				_ = w.Put(runHist(hin))
+				continue
+			}
 			var in input
 			if err := json.Unmarshal(raw, &in); err != nil {
 				t.Fatal(err)
 			}
 			_ = w.Put(run(in))
+		}
+		return
+	}
+	if env.Prop == "C19" {
+		// historical backfill after state sync onto height J: every block below J, every write of the save
+		js := []uint64{4, 9}
+		if env.Tier == "thorough" {
+			js = []uint64{2, 3, 4, 6, 9, 14}
+		}
+		for _, win := range []uint64{0, 2, 100} {
+			for _, j := range js {
+				for h := uint64(1); h < j; h++ {
+					for k := 0; k <= 4; k++ {
+						_ = w.Put(runHist(hinput{W: win, J: j, H: h, K: k, Hist: true}))
+					}
+				}
+			}
 		}
 		return
 	}
